@@ -253,9 +253,13 @@ func (r YangRange) Validate() error {
 	p := r[0]
 
 	for _, n := range r[1:] {
-		if n.Min.Less(p.Max) {
+		if !n.Valid() {
+			return errors.New("invalid number")
+		}
+		if !p.Max.Less(n.Min) {
 			return errors.New("overlapping ranges")
 		}
+		p = n
 	}
 	return nil
 }
